@@ -169,16 +169,19 @@ type vfzCfg struct {
 }
 
 type vfzEnv struct {
-	n    *AbsfsNFS
-	h    *NFSProcedureHandler
-	vfs  *vfsFS
-	wfs  *vfzFS
-	seq  atomic.Int64 // global event sequence
-	prog atomic.Int64 // completed requests (watchdog)
-	on   atomic.Bool  // random gating enabled
-	salt uint64
-	gctr atomic.Uint64
-	stop atomic.Pointer[vfzStop]
+	n     *AbsfsNFS
+	h     *NFSProcedureHandler
+	vfs   *vfsFS
+	wfs   *vfzFS
+	seq   atomic.Int64 // global event sequence
+	prog  atomic.Int64 // completed requests (watchdog)
+	on    atomic.Bool  // random gating enabled
+	salt  uint64
+	gctr  atomic.Uint64
+	stop  atomic.Pointer[vfzStop]
+	bar   atomic.Pointer[vfzBarrier]
+	fidMu sync.Mutex
+	fids  map[uint64]string
 }
 
 func vfzNewEnv(t testing.TB, cfg vfzCfg, salt uint64) *vfzEnv {
@@ -206,22 +209,64 @@ type vfzStop struct {
 	when, op, p string
 	reached     chan struct{}
 	release     chan struct{}
-	used        atomic.Bool
+	skip        atomic.Int32 // matches to let pass before the one that is held
 }
 
 func (e *vfzEnv) arm(when, op, p string) *vfzStop {
+	skip := 0
+	if i := strings.Index(p, "@"); i >= 0 { // "/d/x@1": hold the second time the operation passes
+		fmt.Sscanf(p[i+1:], "%d", &skip)
+		p = p[:i]
+	}
 	st := &vfzStop{when: when, op: op, p: p, reached: make(chan struct{}), release: make(chan struct{})}
+	st.skip.Store(int32(skip))
 	e.stop.Store(st)
 	return st
 }
 
+// vfzBarrier aligns requests of different clients at one point of their handlers: every backend
+// operation (when, op, path) waits there until n requests have arrived (arrivals are counted in
+// generations of n, every client passing the point equally often), or `wait` has passed, so
+// that they execute what follows - cache puts, handle allocations - at the same moment.
+type vfzBarrier struct {
+	when, op, p string
+	n           int32
+	wait        time.Duration
+	ctr         atomic.Int32
+}
+
 func (e *vfzEnv) gate(when, op, p string) {
-	if st := e.stop.Load(); st != nil && st.when == when && st.op == op && st.p == p && st.used.CompareAndSwap(false, true) {
+	if st := e.stop.Load(); st != nil && st.when == when && st.op == op && st.p == p && st.skip.Add(-1) == -1 {
 		close(st.reached)
 		<-st.release
 		return
 	}
+	if b := e.bar.Load(); b != nil && b.when == when && b.op == op && b.p == p {
+		target := ((b.ctr.Add(1)-1)/b.n + 1) * b.n
+		t0 := time.Now() // tight spin (the waiters must leave together), bounded by b.wait
+		for i := 0; b.ctr.Load() < target; i++ {
+			if i&255 == 255 && time.Since(t0) > b.wait {
+				break
+			}
+		}
+		return
+	}
 	e.jitter()
+}
+
+// fidTok names a fileid value by a small token (fileids are 64-bit hashes).
+func (e *vfzEnv) fidTok(v uint64) string {
+	e.fidMu.Lock()
+	defer e.fidMu.Unlock()
+	if e.fids == nil {
+		e.fids = map[uint64]string{}
+	}
+	t, ok := e.fids[v]
+	if !ok {
+		t = fmt.Sprintf("f%d", len(e.fids))
+		e.fids[v] = t
+	}
+	return t
 }
 
 func vfzMix(x uint64) uint64 {
@@ -491,16 +536,18 @@ func (c *vfzClient) do(proc uint32, args []byte, meta M, h uint64) (*vfNFSReply,
 	obj, _ := v["obj"].(M)
 	switch pn {
 	case "LOOKUP":
-		op["rkind"] = ""
+		op["rkind"], op["rfid"] = "", ""
 		if obj != nil {
 			op["rkind"] = vfTypeNames[vfU(obj["type"])]
+			op["rfid"] = c.e.fidTok(vfU(obj["fileid"]))
 		}
 	case "GETATTR":
-		op["rkind"], op["rsize"], op["rperm"] = "", 0, 0
+		op["rkind"], op["rsize"], op["rperm"], op["rfid"] = "", 0, 0, ""
 		if obj != nil {
 			op["rkind"] = vfTypeNames[vfU(obj["type"])]
 			op["rsize"], _ = vfzCap(vfU(obj["size"]))
 			op["rperm"] = int(vfU(obj["mode"]) & 0777)
+			op["rfid"] = c.e.fidTok(vfU(obj["fileid"]))
 		}
 	case "READ":
 		ints := []int{}
@@ -755,6 +802,120 @@ func (c *vfzClient) dataBytes(n int) []byte {
 		b[i] = byte(1 + c.r.Intn(250))
 	}
 	return b
+}
+
+// stepStorm: attribute traffic on the client's own objects without injected delays: GETATTRs of
+// different files (all of different sizes) by different clients at the same moment, with an
+// occasional size change in between (replies are checked like every other distinct-names history).
+func (c *vfzClient) stepStorm() {
+	f, ok := c.pickKind("F")
+	if !ok {
+		c.getattr(c.dirs[1])
+		return
+	}
+	switch x := c.r.Intn(100); {
+	case x < 78:
+		c.getattr(f)
+	case x < 86:
+		c.getattr(c.dirs[c.r.Intn(2)])
+	case x < 93:
+		c.setattr(f, nil, u64p(uint64(c.r.Intn(40))))
+	default:
+		c.write(f, uint64(c.r.Intn(6)), c.dataBytes(1+c.r.Intn(5)))
+	}
+}
+
+// ---------------------------------------------------------------- re-export rounds
+
+// vfzRoundEntries: objects in the export root of a rounds history
+const vfzRoundEntries = 40
+
+// handleDiff projects the handle table at a quiescent moment: sizes of both maps and the (id, path)
+// pairs that are in one of them only.
+func vfzHandleDiff(n *AbsfsNFS) (ntab, nbyp int, only []M) {
+	only = []M{}
+	n.fileMap.RLock()
+	defer n.fileMap.RUnlock()
+	ntab, nbyp = len(n.fileMap.handles), len(n.fileMap.pathHandles)
+	for id, f := range n.fileMap.handles {
+		nd, ok := f.(*NFSNode)
+		if !ok {
+			only = append(only, M{"i": int(id), "p": []string{"?"}, "in": "handles"})
+		} else if other, has := n.fileMap.pathHandles[nd.path]; !has || other != id {
+			only = append(only, M{"i": int(id), "p": vfPathSeq(nd.path), "in": "handles"})
+		}
+	}
+	for p, id := range n.fileMap.pathHandles {
+		if f, has := n.fileMap.handles[id]; !has {
+			only = append(only, M{"i": int(id), "p": vfPathSeq(p), "in": "pathHandles"})
+		} else if nd, ok := f.(*NFSNode); !ok || nd.path != p {
+			only = append(only, M{"i": int(id), "p": vfPathSeq(p), "in": "pathHandles"})
+		}
+	}
+	return
+}
+
+// rounds: R times, the export is taken down and up again (Unexport: every handle and cache entry
+// is dropped, so every path is without a handle again) and all clients at once mount it and list
+// the root with READDIRPLUS, which allocates a handle for every entry in a tight loop; a barrier
+// at the last backend operation before that loop (the Lstat of the root for the reply's directory
+// attributes, minimal TTL) starts the loops together. After each round the handle table is
+// projected (vfzHandleDiff); the requests themselves are not recorded.
+func (h *vfzHist) rounds(R int) (M, bool, string) {
+	ncl := len(h.clients)
+	ntab, nbyp, nun := []int{}, []int{}, []int{}
+	odd := []M{}
+	h.e.on.Store(false)
+	bar := &vfzBarrier{when: "post", op: "Lstat", p: "/", n: int32(ncl), wait: time.Duration(vfEnvInt("VF_LIN_BARRIER_US", 500)) * time.Microsecond}
+	h.e.bar.Store(bar)
+	defer h.e.bar.Store(nil)
+	var tUn, tRun, tDiff time.Duration
+	defer func() {
+		if os.Getenv("VF_LIN_DEBUG") == "1" {
+			fmt.Fprintf(os.Stderr, "VF-LIN-ROUNDS unexport=%v run=%v diff=%v arrivals=%d rounds=%d\n", tUn, tRun, tDiff, bar.ctr.Load(), R)
+		}
+	}()
+	for r := 0; r < R; r++ {
+		t0 := time.Now()
+		h.e.n.Unexport()
+		tUn += time.Since(t0)
+		t0 = time.Now()
+		var wg sync.WaitGroup
+		for i := 0; i < ncl; i++ {
+			wg.Add(1)
+			go func(i int) {
+				defer wg.Done()
+				xid := uint32(100000*(i+1) + 2*r)
+				var a bytes.Buffer
+				xdrEncodeString(&a, "/")
+				rep := h.e.call(xid, MOUNT_PROGRAM, MOUNT_V3, 1, a.Bytes())
+				b := rep.Raw.Body
+				if rep.Raw.Err != nil || len(b) < 16 {
+					return
+				}
+				root := uint64(b[8])<<56 | uint64(b[9])<<48 | uint64(b[10])<<40 | uint64(b[11])<<32 | uint64(b[12])<<24 | uint64(b[13])<<16 | uint64(b[14])<<8 | uint64(b[15])
+				h.e.call(xid+1, NFS_PROGRAM, NFS_V3, NFSPROC3_READDIRPLUS, vfArgsReaddirplus(root, 0, [8]byte{}, 65536, 1<<20))
+				h.e.prog.Add(1)
+			}(i)
+		}
+		done := make(chan struct{})
+		go func() { wg.Wait(); close(done) }()
+		select {
+		case <-done:
+		case <-time.After(10 * time.Second):
+			buf := make([]byte, 1<<20)
+			return nil, false, string(buf[:runtime.Stack(buf, true)])
+		}
+		tRun += time.Since(t0)
+		t0 = time.Now()
+		a, b, only := vfzHandleDiff(h.e.n)
+		tDiff += time.Since(t0)
+		ntab, nbyp, nun = append(ntab, a), append(nbyp, b), append(nun, len(only))
+		if len(only) > 0 && len(odd) < 5 {
+			odd = append(odd, M{"round": r, "only": only})
+		}
+	}
+	return M{"n": R, "ntab": ntab, "nbyp": nbyp, "nun": nun, "odd": odd}, true, ""
 }
 
 // stepContend: all clients hammer the same few objects through the same handles (races on node
@@ -1059,7 +1220,8 @@ func (h *vfzHist) record(hist int, seed int64, extra M) M {
 	}
 	eff := h.e.n.GetExportOptions()
 	line := M{"ev": "hist", "hist": hist, "scenario": "", "seed": int(seed % (1 << 30)), "cfg": h.cfg, "T": eff.TransferSize, "nclients": len(h.clients),
-		"init": h.init, "ops": ops, "final": vfzTree(h.e.vfs), "events": []M{}}
+		"init": h.init, "ops": ops, "final": vfzTree(h.e.vfs), "events": []M{},
+		"rounds": M{"n": 0, "ntab": []int{}, "nbyp": []int{}, "nun": []int{}, "odd": []M{}}}
 	for k, v := range vfzFinal(h.e.n, end) {
 		line[k] = v
 	}
@@ -1190,6 +1352,15 @@ func vfzScenarios() []vfzScenario {
 			func(c *vfzClient, d uint64) { c.create(d, "z", 1, u32p(0644)); c.remove(d, "x") },
 			nil)
 	}
+	// READDIRPLUS fetches the attributes of the entries one by one after reading the names: x REG, y LNK;
+	// held after its attribute fetch of x, RENAME y x (x becomes the link) and MKDIR y complete: the reply
+	// pairs x REG with y DIR, which never held together
+	add("readdirplus-attrs-not-a-snapshot", vfzCfg{TTL: "min"},
+		func(boot *vfzClient, d uint64) { boot.create(d, "x", 0, u32p(0644)); boot.symlink(d, "y", "x") },
+		"post", "Lstat", "/d/x@1",
+		func(c *vfzClient, d uint64) { c.readdir(d, true) },
+		func(c *vfzClient, d uint64) { c.rename(d, "y", d, "x"); c.mkdir(d, "y") },
+		nil)
 	// REMOVE of an (empty) directory leaves the directory's own cached listing behind (sequential)
 	out = append(out, vfzScenario{name: "remove-dir-leaves-listing", cfg: vfzCfg{TTL: "def", Dir: true}, run: func(t testing.TB) (*vfzHist, bool) {
 		h, ok := vfzDirected(t, "remove-dir-leaves-listing", vfzCfg{TTL: "def", Dir: true},
@@ -1219,6 +1390,9 @@ func TestVF_Linearize(t *testing.T) {
 	seed := vfSeed()
 	nh := vfEnvInt("VF_HIST", 200)
 	contendEvery := vfEnvInt("VF_LIN_CONTEND_EVERY", 5) // every k-th history is a "contend" history
+	stormEvery := vfEnvInt("VF_LIN_STORM_EVERY", 10)    // every k-th history is an attribute storm (distinct names)
+	roundsEvery := vfEnvInt("VF_LIN_ROUNDS_EVERY", 20)  // every k-th history is a re-export rounds history
+	nrounds := vfEnvInt("VF_LIN_ROUNDS", 100)
 	tr := vfNewTrace(t, "linearize.ndjson")
 	defer tr.Close()
 	cfgs := vfzConfigs()
@@ -1269,18 +1443,62 @@ func TestVF_Linearize(t *testing.T) {
 				}
 				h.nojitter = true
 			}
+		} else if stormEvery > 0 && hi%stormEvery == 2 {
+			// attribute storm: every client owns files of sizes no other file has
+			boot := &vfzClient{e: h.e, id: -1, hs: map[uint64]*vfzHandle{}, kinds: map[string]string{}, r: r, xid: 500}
+			boot.hold(h.clients[0].dirs[1], []string{"d"})
+			for i, c := range h.clients {
+				for j := 0; j < 3; j++ {
+					nm := fmt.Sprintf("s%d%d", i, j)
+					if rep := boot.create(c.dirs[1], nm, 0, u32p(0644)); rep.OK() {
+						if fh, ok := vfFH(vfGet(rep.Res.Val, "object")); ok {
+							boot.write(fh, 0, c.dataBytes(1+3*i+j))
+							c.hold(fh, []string{"d", nm})
+							c.kinds["d/"+nm] = "F"
+						}
+					}
+				}
+				nops[i] = 6
+			}
+			h.init = vfzTree(h.e.vfs)
+			h.nojitter = true
+			stepFn = func(c *vfzClient) { c.stepStorm() }
 		}
-		ok, dump := h.run(nops, stepFn)
+		var ok bool
+		var dump string
+		var roundsRec M
+		if roundsEvery > 0 && hi%roundsEvery == 7 {
+			// re-export rounds (see vfzHist.rounds): a tree of its own, minimal TTL, no recorded requests
+			h.e.n.Close()
+			cfg = vfzCfg{TTL: "min", Mode: "contend"}
+			h = &vfzHist{e: vfzNewEnv(t, cfg, salt), cfg: cfg}
+			for i := 0; i < vfzRoundEntries; i++ {
+				h.e.vfs.vfPoke(fmt.Sprintf("/e%d", i), "F", nil, "", 0644)
+			}
+			ncl = vfEnvInt("VF_LIN_ROUND_CLIENTS", 3)
+			for i := 0; i < ncl; i++ {
+				h.clients = append(h.clients, &vfzClient{e: h.e, id: i, hs: map[uint64]*vfzHandle{}, kinds: map[string]string{}})
+			}
+			h.init = []M{}
+			roundsRec, ok, dump = h.rounds(nrounds)
+		} else {
+			ok, dump = h.run(nops, stepFn)
+		}
 		if !ok {
 			deadlocks++
 			fmt.Fprintf(os.Stderr, "VF-LIN-DEADLOCK-BEGIN %d\n%s\nVF-LIN-DEADLOCK-END\n", hi, dump)
 			// the stuck goroutines still own their clients: record only what is safe to read
 			tr.Emit(M{"ev": "hist", "hist": hi, "scenario": "", "seed": int(seed % (1 << 30)), "cfg": cfg, "T": 0, "nclients": ncl, "init": h.init, "ops": []M{},
 				"final": h.init, "tab": []M{}, "byp": []M{}, "badnodes": 0, "attr": []M{}, "dirc": []M{}, "expired": 0,
+				"rounds": M{"n": 0, "ntab": []int{}, "nbyp": []int{}, "nun": []int{}, "odd": []M{}},
 				"events": []M{{"ev": "deadlock", "what": "no request completed for 10 s", "detail": ""}}})
 			break
 		}
-		line := h.record(hi, seed, nil)
+		var extra M
+		if roundsRec != nil {
+			extra = M{"rounds": roundsRec}
+		}
+		line := h.record(hi, seed, extra)
 		tr.Emit(line)
 		vfzFlush(tr)
 		ops := line["ops"].([]M)
